@@ -116,6 +116,12 @@ def _gen_cli(rng, cfg, files, wsdocs, nout):
             op["test_stat"] = rng.choice([None, "q", "qtilde"])
             op["calctype"] = rng.choices([None, "asymptotics", "toybased"], weights=[5, 3, 0.5 if BACKEND_ALIASES.get(be) == "numpy" else 0])[0]
             op["seed"] = rng.randrange(1 << 30)
+            if op["calctype"] == "toybased" and op["optimizer"] == "minuit":
+                # 60 toy fits under MIGRAD with an unusual configuration can take unbounded time (found by a soak: a
+                # segment with strategy=0 at mu=0 ran into the 15-minute watchdog): toys run under the default optimiser
+                op["optimizer"] = None
+                op["optconf"] = {}
+                op.pop("optconf_first", None)
         else:
             op["value"] = rng.random() < 0.5
     elif cmd == "inspect":
